@@ -33,7 +33,7 @@ inductive VErr where
   | dupService | conflictService | dupMethod | conflictMethod
   | dupScope | conflictScope | dupOp | conflictOp
   | vendorWildcard | dupInclude
-  | constType | constRef | constRefInclude | constRefIncluded | constName
+  | constType | constRef | constRefInclude | constRefIncluded | constRefEnum | constName
   | typedefType | typedefCycle
   | fieldType | dupFieldId
   | retType | argType | excType | onewayThrows | onewayReturns | dupArgId
@@ -52,7 +52,7 @@ inductive CRes (α : Type) where
   | ok (a : α)
   | err (e : VErr)
   | panic (p : CPanic)
-  deriving Repr
+  deriving Repr, DecidableEq
 
 namespace CRes
 def bind (r : CRes α) (f : α → CRes β) : CRes β :=
@@ -430,6 +430,9 @@ def validateIncludes : List Name → List Name → CRes Unit
     if seen.contains (includeDeclName v) then .err .dupInclude
     else validateIncludes (includeDeclName v :: seen) vs
 
+def hasEnumValue (enums : List Enum) (e v : Name) : Bool :=
+  enums.any fun en => en.name = e && en.values.contains v
+
 def validateConstant (ctx : Ctx) (c : Const) : CRes Unit :=
   if !isValidType ctx c.ty then .err .constType
   else
@@ -439,11 +442,16 @@ def validateConstant (ctx : Ctx) (c : Const) : CRes Unit :=
       match splitOn '.' id with
       | [_] => guardV (ctx.self.consts.any (·.name = id)) .constRef
       | [inc, param] =>
-        if inc ≠ [] then
+        if hasEnumValue ctx.self.enums inc param then .ok ()
+        else if inc ≠ [] then
           match ctx.incs.lookup inc with
           | none => .err .constRefInclude
           | some f => guardV (f.consts.any (·.name = param)) .constRefIncluded
         else guardV (ctx.self.consts.any (·.name = param)) .constRefIncluded
+      | [inc, en, v] =>
+        match ctx.incs.lookup inc with
+        | none => .err .constRefInclude
+        | some f => guardV (hasEnumValue f.enums en v) .constRefEnum
       | _ => .err .constName
 
 def validateTypedefs (ctx : Ctx) : CRes Unit := do
